@@ -54,3 +54,24 @@ Example place_tables_computed :
   place_table_ok table_pinned = true /\ length table_pinned = 24%nat
   /\ place_cut_ok table_no_cap = false /\ place_dest_ok table_tail_dropped = false /\ place_table_ok [] = false.
 Proof. vm_compute. repeat split; reflexivity. Qed.
+
+(** [want_src] is [read_info] of SM/Vpk.v, and [verify_info] compares the checksum of exactly those bytes. *)
+Theorem read_info_want crc st i :
+  read_info st i = ipre i ++ match want_src (ilen i =? 0) (is_none (iidx i)) with
+                            | RNone => []
+                            | RFooter => slice (foot st) (ioff i) (ilen i)
+                            | RArch => match iidx i with Some x => slice (arch_get x (archs st)) (ioff i) (ilen i) | None => [] end
+                            | ROther => []
+                            end
+  /\ verify_info crc st i = (crc (read_info st i) =? icrc i).
+Proof.
+  split; [|reflexivity]. unfold read_info, container, want_src. destruct (ilen i =? 0); [reflexivity|]. destruct (iidx i); reflexivity.
+Qed.
+
+Definition rtable_pinned : list rrow := [mkRRow false false RArch RArch; mkRRow false true RFooter RFooter; mkRRow true false RNone RNone; mkRRow true true RNone RNone].
+Example read_tables_computed :
+  read_table_ok rtable_pinned = true
+  (* verify() that does not seek to the offset checks other bytes than read() returns *)
+  /\ read_table_ok [mkRRow false false RArch ROther; mkRRow false true RFooter RFooter; mkRRow true false RNone RNone; mkRRow true true RNone RNone] = false
+  /\ read_table_ok [mkRRow false false RArch RArch] = false.
+Proof. vm_compute. repeat split; reflexivity. Qed.
